@@ -31,6 +31,7 @@
   no theorem here: they are checked by the simulation oracle only.
 -/
 import Kopf.Lemmas.C13_Failover
+import Kopf.Model.C13_KaFlight
 namespace Kopf.C13
 
 /-! ## "its peering object": another peering object of the same kind is not observed at all -/
@@ -815,6 +816,105 @@ theorem own_record_not_cleaned {u : Int} {st : List (Identity × RawEntry)} {me 
 
 /-! ## the withdrawal is permanent (findings F2 - repaired by f370f06 - and F9 - repaired by 26a293c) -/
 
+/-- One step: an operator that has withdrawn and has no record stays so through ANY label but its own restart or a foreign
+    write under its name. -/
+theorem withdrawn_step {u : Int} {i : Identity} {s s1 : State} {l : Label}
+    (hw : ∃ o, s.ops i = some o ∧ Withdrawn o) (hn : ∀ r, (i, r) ∉ s.status)
+    (hl1 : ∀ p lt, l ≠ .start i p lt) (hl2 : ∀ r, l ≠ .foreign i (some r))
+    (hs : step u s l = some s1) : (∃ o, s1.ops i = some o ∧ Withdrawn o) ∧ ∀ r, (i, r) ∉ s1.status := by
+  obtain ⟨o, ho, hoa, hos, hfl⟩ := hw
+  -- an operator j ≠ i that acts leaves i's entry and i's (absent) records alone
+  have other : ∀ {j : Identity} {onew : Op}, i ≠ j →
+      s1.ops = updOp s.ops j onew → (∀ r, (i, r) ∈ s1.status → (i, r) ∈ s.status) →
+      (∃ o, s1.ops i = some o ∧ Withdrawn o) ∧ ∀ r, (i, r) ∉ s1.status := by
+    intro j onew hji hops hsub
+    exact ⟨⟨o, by rw [hops, updOp_other _ _ hji]; exact ho, hoa, hos, hfl⟩, fun r hm => hn r (hsub r hm)⟩
+  -- a label guarded by "running" is not i's
+  have notme : ∀ {j : Identity} {oj : Op}, s.ops j = some oj → oj.alive = true → i ≠ j := by
+    intro j oj hj hja e
+    subst e
+    rw [ho] at hj; injection hj with hj; subst hj
+    rw [hja] at hoa; cases hoa
+  have same : s1.ops = s.ops → (∀ r, (i, r) ∈ s1.status → (i, r) ∈ s.status) →
+      (∃ o, s1.ops i = some o ∧ Withdrawn o) ∧ ∀ r, (i, r) ∉ s1.status := by
+    intro hops hsub
+    exact ⟨⟨o, by rw [hops]; exact ho, hoa, hos, hfl⟩, fun r hm => hn r (hsub r hm)⟩
+  cases l with
+  | start j p lt =>
+    obtain ⟨_, hst, _, _, hops⟩ := start_spec hs
+    have hji : i ≠ j := fun e => hl1 p lt (by rw [e])
+    exact other hji hops (fun r hm => by rw [hst] at hm; exact hm)
+  | keepalive j lag =>
+    obtain ⟨oj, hj, hja, _, _, hst, hops⟩ := keepalive_spec hs
+    have hji := notme hj hja
+    exact other hji hops (fun r hm => by rw [hst] at hm; exact (mem_patch_other (Ne.symm hji)).mp hm)
+  | exit j =>
+    obtain ⟨oj, hj, hja, _, hst, hops, _⟩ := exit_spec hs
+    exact other (notme hj hja) hops (fun r hm => by rw [hst] at hm; exact (mem_erase.mp hm).1)
+  | exitLost j =>
+    obtain ⟨oj, hj, hja, _, hst, hops, _⟩ := exitLost_spec hs
+    exact other (notme hj hja) hops (fun r hm => by rw [hst] at hm; exact hm)
+  | exitBegin j =>
+    obtain ⟨oj, hj, hja, _, _, hst, _, hops⟩ := exitBegin_spec hs
+    exact other (notme hj hja) hops (fun r hm => by rw [hst] at hm; exact hm)
+  | keepaliveFail j w =>
+    obtain ⟨oj, hj, hja, _, hst, _, hops⟩ := keepaliveFail_spec hs
+    refine other (notme hj hja) hops (fun r hm => ?_)
+    rw [hst] at hm
+    cases w
+    · exact hm
+    · exact (mem_erase.mp hm).1
+  | exitEnd j =>
+    obtain ⟨oj, hj, hja, _, _, hst, _, hops⟩ := exitEnd_spec hs
+    exact other (notme hj hja) hops (fun r hm => by rw [hst] at hm; exact (mem_erase.mp hm).1)
+  | kill j =>
+    obtain ⟨oj, hj, hja, _, hst, hops, _⟩ := kill_spec hs
+    exact other (notme hj hja) hops (fun r hm => by rw [hst] at hm; exact hm)
+  | deliver j =>
+    obtain ⟨oj, hj, hja, _, hst, _, _, hops⟩ := deliver_spec hs
+    exact other (notme hj hja) hops (fun r hm => by rw [hst] at hm; exact (List.mem_filter.mp hm).1)
+  | deliverStale j view vv =>
+    obtain ⟨oj, _, hj, hja, _, _, hst, _, _, hops, _⟩ := stale_spec hs
+    refine other (notme hj hja) hops (fun r hm => ?_)
+    rcases hst with e | e
+    · rw [e] at hm; exact hm
+    · rw [e] at hm; exact (List.mem_filter.mp hm).1
+  | tick d =>
+    simp only [step, Option.some.injEq] at hs; subst hs
+    exact same rfl (fun r hm => hm)
+  | expire j =>
+    simp only [step, Option.some.injEq] at hs; subst hs
+    exact same rfl (fun r hm => hm)
+  | foreign j v =>
+    simp only [step, Option.some.injEq] at hs; subst hs
+    refine same rfl ?_
+    intro r hm
+    by_cases hji : j = i
+    · subst hji
+      cases v with
+      | none => exact absurd rfl (mem_erase.mp hm).2
+      | some r' => exact absurd rfl (hl2 r')
+    · exact (mem_patch_other hji).mp hm
+  | wake j lag =>
+    obtain ⟨oj, hj, hjs, _, hst, hops, _⟩ := wake_spec hs
+    have hji : i ≠ j := by
+      intro e; subst e
+      rw [ho] at hj; injection hj with hj; subst hj; rw [hos] at hjs; cases hjs
+    exact other hji hops (fun r hm => by rw [hst] at hm; exact (mem_patch_other (Ne.symm hji)).mp hm)
+  | wakeIssue j =>
+    obtain ⟨oj, hj, hjs, _, _, hst, _, hops⟩ := wakeIssue_spec hs
+    have hji : i ≠ j := by
+      intro e; subst e
+      rw [ho] at hj; injection hj with hj; subst hj; rw [hos] at hjs; cases hjs
+    exact other hji hops (fun r hm => by rw [hst] at hm; exact hm)
+  | land j =>
+    obtain ⟨oj, t, hj, hjt, _, hst, hops, _⟩ := land_spec hs
+    have hji : i ≠ j := by
+      intro e; subst e
+      rw [ho] at hj; injection hj with hj; subst hj
+      rw [hfl] at hjt; cases hjt
+    exact other hji hops (fun r hm => by rw [hst] at hm; exact (mem_patch_other (Ne.symm hji)).mp hm)
+
 theorem withdrawn_stays_aux {u : Int} {i : Identity} : ∀ (ls : List Label) (s s' : State),
     (∃ o, s.ops i = some o ∧ Withdrawn o) → (∀ r, (i, r) ∉ s.status) →
     (∀ l ∈ ls, (∀ p lt, l ≠ .start i p lt) ∧ (∀ r, l ≠ .foreign i (some r))) →
@@ -830,98 +930,7 @@ theorem withdrawn_stays_aux {u : Int} {i : Identity} : ∀ (ls : List Label) (s 
     | some s1 =>
       simp only [hs] at h
       obtain ⟨hl1, hl2⟩ := hall l List.mem_cons_self
-      -- an operator j ≠ i that acts leaves i's entry and i's (absent) records alone
-      have other : ∀ {j : Identity} {onew : Op}, i ≠ j →
-          s1.ops = updOp s.ops j onew → (∀ r, (i, r) ∈ s1.status → (i, r) ∈ s.status) →
-          (∃ o, s1.ops i = some o ∧ Withdrawn o) ∧ ∀ r, (i, r) ∉ s1.status := by
-        intro j onew hji hops hsub
-        exact ⟨⟨o, by rw [hops, updOp_other _ _ hji]; exact ho, hoa, hos, hfl⟩, fun r hm => hn r (hsub r hm)⟩
-      -- a label guarded by "running" is not i's
-      have notme : ∀ {j : Identity} {oj : Op}, s.ops j = some oj → oj.alive = true → i ≠ j := by
-        intro j oj hj hja e
-        subst e
-        rw [ho] at hj; injection hj with hj; subst hj
-        rw [hja] at hoa; cases hoa
-      have same : s1.ops = s.ops → (∀ r, (i, r) ∈ s1.status → (i, r) ∈ s.status) →
-          (∃ o, s1.ops i = some o ∧ Withdrawn o) ∧ ∀ r, (i, r) ∉ s1.status := by
-        intro hops hsub
-        exact ⟨⟨o, by rw [hops]; exact ho, hoa, hos, hfl⟩, fun r hm => hn r (hsub r hm)⟩
-      have key : (∃ o, s1.ops i = some o ∧ Withdrawn o) ∧ ∀ r, (i, r) ∉ s1.status := by
-        cases l with
-        | start j p lt =>
-          obtain ⟨_, hst, _, _, hops⟩ := start_spec hs
-          have hji : i ≠ j := fun e => hl1 p lt (by rw [e])
-          exact other hji hops (fun r hm => by rw [hst] at hm; exact hm)
-        | keepalive j lag =>
-          obtain ⟨oj, hj, hja, _, _, hst, hops⟩ := keepalive_spec hs
-          have hji := notme hj hja
-          exact other hji hops (fun r hm => by rw [hst] at hm; exact (mem_patch_other (Ne.symm hji)).mp hm)
-        | exit j =>
-          obtain ⟨oj, hj, hja, _, hst, hops, _⟩ := exit_spec hs
-          exact other (notme hj hja) hops (fun r hm => by rw [hst] at hm; exact (mem_erase.mp hm).1)
-        | exitLost j =>
-          obtain ⟨oj, hj, hja, _, hst, hops, _⟩ := exitLost_spec hs
-          exact other (notme hj hja) hops (fun r hm => by rw [hst] at hm; exact hm)
-        | exitBegin j =>
-          obtain ⟨oj, hj, hja, _, _, hst, _, hops⟩ := exitBegin_spec hs
-          exact other (notme hj hja) hops (fun r hm => by rw [hst] at hm; exact hm)
-        | keepaliveFail j w =>
-          obtain ⟨oj, hj, hja, _, hst, _, hops⟩ := keepaliveFail_spec hs
-          refine other (notme hj hja) hops (fun r hm => ?_)
-          rw [hst] at hm
-          cases w
-          · exact hm
-          · exact (mem_erase.mp hm).1
-        | exitEnd j =>
-          obtain ⟨oj, hj, hja, _, _, hst, _, hops⟩ := exitEnd_spec hs
-          exact other (notme hj hja) hops (fun r hm => by rw [hst] at hm; exact (mem_erase.mp hm).1)
-        | kill j =>
-          obtain ⟨oj, hj, hja, _, hst, hops, _⟩ := kill_spec hs
-          exact other (notme hj hja) hops (fun r hm => by rw [hst] at hm; exact hm)
-        | deliver j =>
-          obtain ⟨oj, hj, hja, _, hst, _, _, hops⟩ := deliver_spec hs
-          exact other (notme hj hja) hops (fun r hm => by rw [hst] at hm; exact (List.mem_filter.mp hm).1)
-        | deliverStale j view vv =>
-          obtain ⟨oj, _, hj, hja, _, _, hst, _, _, hops, _⟩ := stale_spec hs
-          refine other (notme hj hja) hops (fun r hm => ?_)
-          rcases hst with e | e
-          · rw [e] at hm; exact hm
-          · rw [e] at hm; exact (List.mem_filter.mp hm).1
-        | tick d =>
-          simp only [step, Option.some.injEq] at hs; subst hs
-          exact same rfl (fun r hm => hm)
-        | expire j =>
-          simp only [step, Option.some.injEq] at hs; subst hs
-          exact same rfl (fun r hm => hm)
-        | foreign j v =>
-          simp only [step, Option.some.injEq] at hs; subst hs
-          refine same rfl ?_
-          intro r hm
-          by_cases hji : j = i
-          · subst hji
-            cases v with
-            | none => exact absurd rfl (mem_erase.mp hm).2
-            | some r' => exact absurd rfl (hl2 r')
-          · exact (mem_patch_other hji).mp hm
-        | wake j lag =>
-          obtain ⟨oj, hj, hjs, _, hst, hops, _⟩ := wake_spec hs
-          have hji : i ≠ j := by
-            intro e; subst e
-            rw [ho] at hj; injection hj with hj; subst hj; rw [hos] at hjs; cases hjs
-          exact other hji hops (fun r hm => by rw [hst] at hm; exact (mem_patch_other (Ne.symm hji)).mp hm)
-        | wakeIssue j =>
-          obtain ⟨oj, hj, hjs, _, _, hst, _, hops⟩ := wakeIssue_spec hs
-          have hji : i ≠ j := by
-            intro e; subst e
-            rw [ho] at hj; injection hj with hj; subst hj; rw [hos] at hjs; cases hjs
-          exact other hji hops (fun r hm => by rw [hst] at hm; exact hm)
-        | land j =>
-          obtain ⟨oj, t, hj, hjt, _, hst, hops, _⟩ := land_spec hs
-          have hji : i ≠ j := by
-            intro e; subst e
-            rw [ho] at hj; injection hj with hj; subst hj
-            rw [hfl] at hjt; cases hjt
-          exact other hji hops (fun r hm => by rw [hst] at hm; exact (mem_patch_other (Ne.symm hji)).mp hm)
+      have key := withdrawn_step ⟨o, ho, hoa, hos, hfl⟩ hn hl1 hl2 hs
       exact ih s1 s' key.1 key.2 (fun l hl => hall l (List.mem_cons_of_mem _ hl)) h
 
 /-- FULL. An operator that has withdrawn and has no record stays without a record, whatever else happens in any order —
@@ -965,6 +974,138 @@ theorem selftouch_before_withdrawal :
                   .wakeIssue "B", .exitBegin "B", .exitEnd "B", .land "B"]).isSome = false ∧
     (run 64 init [.start "A" 100 2, .start "B" 10 10, .keepalive "A" 0, .keepalive "B" 0, .deliver "B", .kill "A", .expire "A",
                   .wakeIssue "B", .exit "B", .land "B"]).isSome = false := by decide
+
+/-! ## the regular keep-alive in flight when the operator stops (seeded change C13f was the negation) -/
+
+/- Full clause: "removes it on graceful exit" — also when the stop comes while a regular keep-alive PATCH is on its way. -/
+theorem kwithdrawn_aux {u : Int} {i : Identity} : ∀ (ls : List KLabel) (ks ks' : KState),
+    (∃ o, ks.s.ops i = some o ∧ Withdrawn o) → ks.flight i = none → (∀ r, (i, r) ∉ ks.s.status) →
+    (∀ l ∈ ls, (∀ p lt, l ≠ .base (.start i p lt)) ∧ (∀ r, l ≠ .base (.foreign i (some r)))) →
+    krun u ks ls = some ks' → ∀ r, (i, r) ∉ ks'.s.status := by
+  intro ls
+  induction ls with
+  | nil => intro ks ks' _ _ hn _ h; simp only [krun, Option.some.injEq] at h; subst h; exact hn
+  | cons l rest ih =>
+    intro ks ks' hw hf hn hall h
+    simp only [krun] at h
+    cases hs : kstep u ks l with
+    | none => simp [hs] at h
+    | some k1 =>
+      simp only [hs] at h
+      obtain ⟨hl1, hl2⟩ := hall l List.mem_cons_self
+      have hrest := fun l hl => hall l (List.mem_cons_of_mem _ hl)
+      cases l with
+      | base bl =>
+        simp only [kstep] at hs
+        cases hst : step u ks.s bl with
+        | none => simp [hst] at hs
+        | some s' =>
+          simp only [hst, Option.some.injEq] at hs
+          subst hs
+          have key := withdrawn_step hw hn (fun p lt e => hl1 p lt (by rw [e])) (fun r e => hl2 r (by rw [e])) hst
+          refine ih _ ks' key.1 ?_ key.2 hrest h
+          show (match stopsPinger bl with | some j => setFlight ks.flight j none | none => ks.flight) i = none
+          cases stopsPinger bl with
+          | none => exact hf
+          | some j => simp only [setFlight]; split; rfl; exact hf
+      | kaIssue j =>
+        simp only [kstep, kaIssueStep] at hs
+        cases hj : ks.s.ops j with
+        | none => simp [hj] at hs
+        | some oj =>
+          simp only [hj] at hs
+          by_cases hg : (oj.alive && (ks.flight j).isNone) = true
+          · simp only [hg, if_true, Option.some.injEq] at hs
+            subst hs
+            have hji : i ≠ j := by
+              intro e; subst e
+              obtain ⟨o, ho, hoa, _, _⟩ := hw
+              rw [ho] at hj; injection hj with hj; subst hj
+              rw [hoa] at hg; simp at hg
+            refine ih _ ks' ?_ ?_ ?_ hrest h
+            · exact hw
+            · show setFlight ks.flight j (some ks.s.now) i = none
+              simp only [setFlight, if_neg hji]; exact hf
+            · exact hn
+          · simp [hg] at hs
+      | kaLand j =>
+        simp only [kstep, kaLandStep] at hs
+        cases hj : ks.s.ops j with
+        | none => simp [hj] at hs
+        | some oj =>
+          cases hfj : ks.flight j with
+          | none => simp [hj, hfj] at hs
+          | some t =>
+            simp only [hj, hfj, Option.some.injEq] at hs
+            subst hs
+            have hji : i ≠ j := by
+              intro e; subst e; rw [hf] at hfj; cases hfj
+            obtain ⟨o, ho, hwd⟩ := hw
+            refine ih _ ks' ?_ ?_ ?_ hrest h
+            · exact ⟨o, ho, hwd⟩
+            · show setFlight ks.flight j none i = none
+              simp only [setFlight, if_neg hji]; exact hf
+            · intro r hm
+              exact hn r ((mem_patch_other (Ne.symm hji)).mp hm)
+
+/-- FULL (no guard; seeded change C13f was the negation). The regular keep-alive as a request IN FLIGHT (`kaIssue` … `kaLand`,
+    layer `C13_KaFlight` over `step`): the graceful stop of the pinger (`exitEnd`, or the one-step `exit`) cancels the request
+    the pinger is awaiting BEFORE it sends the withdrawal - whatever was on its way is not applied. So from the withdrawal on,
+    through anything anybody does in any order - other operators' keep-alives sent and landing at any time, views of any age,
+    kills, time - the record never comes back (until the operator is started again or a foreign writer uses its name). -/
+theorem withdrawn_stays_keepalive_in_flight {u : Int} {i : Identity} {ks k1 ks' : KState}
+    (h1 : kstep u ks (.base (.exitEnd i)) = some k1 ∨ kstep u ks (.base (.exit i)) = some k1) (ls : List KLabel)
+    (hall : ∀ l ∈ ls, (∀ p lt, l ≠ .base (.start i p lt)) ∧ (∀ r, l ≠ .base (.foreign i (some r))))
+    (h2 : krun u k1 ls = some ks') : ∀ r, (i, r) ∉ ks'.s.status := by
+  have key : (∃ s1, (step u ks.s (.exitEnd i) = some s1 ∨ step u ks.s (.exit i) = some s1) ∧ k1.s = s1) ∧ k1.flight i = none := by
+    rcases h1 with h | h
+    · simp only [kstep] at h
+      cases hst : step u ks.s (.exitEnd i) with
+      | none => simp [hst] at h
+      | some s' =>
+        simp only [hst, Option.some.injEq] at h
+        subst h
+        exact ⟨⟨s', Or.inl rfl, rfl⟩, by simp [stopsPinger, setFlight]⟩
+    · simp only [kstep] at h
+      cases hst : step u ks.s (.exit i) with
+      | none => simp [hst] at h
+      | some s' =>
+        simp only [hst, Option.some.injEq] at h
+        subst h
+        exact ⟨⟨s', Or.inr rfl, rfl⟩, by simp [stopsPinger, setFlight]⟩
+  obtain ⟨⟨s1, hs1, he⟩, hf⟩ := key
+  obtain ⟨hn, _, hw⟩ := withdraw_on_exit hs1
+  exact kwithdrawn_aux ls k1 ks' (by rw [he]; exact hw) hf (by rw [he]; exact hn) hall h2
+
+/-- the hypotheses are met with a keep-alive in flight at the stop: A's second keep-alive was sent at tick 3520, the stop's
+    last step comes 8 ticks later and takes the request back -/
+example : ((krun 64 kinit [.base (.start "A" 100 60), .base (.start "B" 10 10), .kaIssue "A", .kaLand "A", .base (.deliver "B"),
+                           .base (.tick 3520), .kaIssue "A", .base (.tick 8), .base (.exitBegin "A")]).bind
+            (fun ks => (kstep 64 ks (.base (.exitEnd "A"))).map (fun k1 => (ks.flight "A", k1.flight "A", k1.s.status)))) =
+          some (some 3520, none, []) := by decide
+
+set_option synthInstance.maxSize 2048 in
+/-- Seed C13f's schedule in Lean (lifetime 60 s, 64 ticks per second). A (priority 100) sends its second keep-alive at tick
+    3520 (55 s); 8 ticks later it is stopped gracefully: `exitBegin`, `exitEnd` - the withdrawal lands; 26 ticks later the
+    keep-alive arrives. With what the code does (`kstep`: cancelled with the pinger) that is not a run (first conjunct); B,
+    processing the status, resumes: nobody's record but its own concern it (second). With the seeded variant (`kstepShield`:
+    the request survives the stop) the same labels ARE a run: A is gone and its record is back, stamped 3520, live until
+    tick 7360 - B, processing that status, stays paused: nobody is active for a whole lifetime (third). Replayed on the real
+    code: corpus/C13/stop_during_slow_keepalive_lifetime60.json (must pass). -/
+theorem shielded_keepalive_returns_witness :
+    (krun 64 kinit [.base (.start "A" 100 60), .base (.start "B" 10 10), .kaIssue "A", .kaLand "A", .base (.deliver "B"),
+                    .base (.tick 3520), .kaIssue "A", .base (.tick 8), .base (.exitBegin "A"), .base (.exitEnd "A"),
+                    .base (.tick 26), .kaLand "A"]).isSome = false ∧
+    (krun 64 kinit [.base (.start "A" 100 60), .base (.start "B" 10 10), .kaIssue "A", .kaLand "A", .base (.deliver "B"),
+                    .base (.tick 3520), .kaIssue "A", .base (.tick 8), .base (.exitBegin "A"), .base (.exitEnd "A"),
+                    .base (.tick 26), .base (.deliver "B")]).map
+        (fun ks => (ks.s.status, (ks.s.ops "A").map (·.alive), (ks.s.ops "B").map (fun o => (o.alive, o.paused))))
+      = some ([], some false, some (true, false)) ∧
+    (krunShield 64 kinit [.base (.start "A" 100 60), .base (.start "B" 10 10), .kaIssue "A", .kaLand "A", .base (.deliver "B"),
+                    .base (.tick 3520), .kaIssue "A", .base (.tick 8), .base (.exitBegin "A"), .base (.exitEnd "A"),
+                    .base (.tick 26), .kaLand "A", .base (.deliver "B")]).map
+        (fun ks => (ks.s.now, ks.s.status, (ks.s.ops "A").map (·.alive), (ks.s.ops "B").map (fun o => (o.alive, o.paused))))
+      = some (3554, [("A", ⟨100, 60, 3520⟩)], some false, some (true, true)) := by decide
 
 /-! ## failover after a graceful exit -/
 
